@@ -70,14 +70,17 @@ def build_message(spec):
 
 
 class RecDevice(Device):
-    def __init__(self, did, name, log, catch_all=False):
+    def __init__(self, did, name, log, catch_all=False, raises_on=None):
         self.did, self.name, self.log, self.catch_all = did, name, log, catch_all
+        self.raises_on = raises_on  # message kind on which this endpoint fails (a buggy driver handler)
 
     def accepts(self, device):
         return self.catch_all or device is None or device == self.name
 
     def message_from_client(self, message):
         self.log(("dev", self.did, message))
+        if self.raises_on and message.tag_name() == self.raises_on:
+            raise RuntimeError("injected failure in a device endpoint")
 
 
 class RecClient(Client):
@@ -115,7 +118,7 @@ def generate(seed, tier, index, focus):
     steps = []
     if level == 1:
         for _ in range(rng.randint(0, 3)):
-            steps.append({"op": "reg_dev", "name": rng.choice(["A", "B", "*"]), "kind": rng.choice(["rec", "rec", "both", "driver"])})
+            steps.append({"op": "reg_dev", "name": rng.choice(["A", "B", "*"]), "kind": rng.choice(["rec", "rec", "both", "driver", "raiser"])})
         for _ in range(rng.randint(0, 3)):
             steps.append({"op": "reg_cli"})
         for _ in range(n):
@@ -276,9 +279,12 @@ def _wrap_router(router, chk):
     def pm(message, sender=None):
         fr = chk.begin(message, sender)
         try:
-            return orig_pm(message, sender)
-        finally:
-            chk.end(fr)
+            r = orig_pm(message, sender)
+        except BaseException:
+            chk.stack.pop()  # cut short by an endpoint failure: not judged
+            raise
+        chk.end(fr)
+        return r
 
     def rc(client):
         if id(client) not in chk.ids:
@@ -339,7 +345,7 @@ def execute_level1(scen):
             router.register_client(d)
         else:
             catch = name == "*"
-            d = RecDevice(did, "A" if catch else name, log, catch_all=catch)
+            d = RecDevice(did, "A" if catch else name, log, catch_all=catch, raises_on="pingReply" if kind == "raiser" else None)
             chk.ids.hold(d)
             chk.ids[id(d)] = did
             router.register_device(d)
@@ -401,7 +407,14 @@ def execute_level1(scen):
                         kind = "getProperties"
                     spec = make_spec(rng, kind, device, st.get("value"))
                     msg = build_message(spec)
-                    router.process_message(msg, sender=sender)
+                    try:
+                        router.process_message(msg, sender=sender)
+                    except RuntimeError as e:
+                        if "injected failure" not in str(e):
+                            raise
+                        chk.probe("endpoint_raised_out_of_router")
+                        # the call was cut short: what it had delivered so far is not judged, the frame was already closed
+                        # by the spy's finally; later calls are judged normally
         sim.do(run)
         sim.settle()
     if other_seen:
